@@ -211,6 +211,12 @@ def text_space(tier):
             for i in range(len(toks)):
                 yield ' '.join(toks[:i] + toks[i + 1:])
                 yield ' '.join(toks[:i] + [toks[i]] + toks[i:])
+            # one more operand than the line has (the last one again, a number, a register)
+            if len(toks) > 1:
+                last = line.split(',')[-1].strip() if ',' in line else ' '.join(toks[1:])
+                for extra in (last, '4', 'eax' if corpus is CORPUS_INTEL else '%eax', 'st' if corpus is CORPUS_INTEL else '%st'):
+                    yield line + ', ' + extra
+                    yield line + ', ' + extra + ', ' + extra
                 if i + 1 < len(toks):
                     yield ' '.join(toks[:i] + [toks[i + 1], toks[i]] + toks[i + 2:])
                 for rep in ('[', ']', ',', '-', 'st(9)', '65536', 'PTR'):
